@@ -11,10 +11,13 @@ Definition shared_path (key : Z) : path :=
   let n := 1 + key mod 4 in
   mkPath n (if (2 <=? n) && ((key / 4) mod 3 =? 0) then 1 + (key / 12) mod n else 0).
 
+(** the routers of the lab carry, in their address, the flow key of the probe they answer (two bytes), the number of the
+    socket pair the probe left through (upper five bits of the last byte) and their position on the path (lower three).
+    [router_key] returns (flow key + 65536 * socket, position): the replies to the probes of ONE run all carry one value. *)
 Definition router_key (ip : list Z) : option (Z * Z) :=
   match ip with
-  | [a; hi; lo; k] => if a =? 10 then Some (256 * hi + lo, k) else None
-  | [a; _; _; _; _; _; _; _; _; _; _; _; hi; lo; _; k] => if a =? 253 then Some (256 * hi + lo, k) else None
+  | [a; hi; lo; k] => if a =? 10 then Some (256 * hi + lo + 65536 * (k / 8), k mod 8) else None
+  | [a; _; _; _; _; _; _; _; _; _; _; _; hi; lo; _; k] => if a =? 253 then Some (256 * hi + lo + 65536 * (k / 8), k mod 8) else None
   | _ => None
   end.
 
@@ -95,11 +98,14 @@ Definition srun_verdict (extra : Z * Z) (i : Z * bool * Z * Z * Z) (o : Z * list
       if status =? 77 then (6, None) else
       match first_key hops with
       | None => (4, None)
-      | Some key =>
+      | Some skey =>
+          (* skey: flow key and socket of the run's first router hop; a hop with another flow key OR another socket is a
+             reply to somebody else's probe *)
+          let key := skey mod 65536 in
           let pa := shared_path key in
-          if (status =? 0) && all2s key (pa_n pa) (predicted pa 1 last) hops then
+          if (status =? 0) && all2s skey (pa_n pa) (predicted pa 1 last) hops then
             ((if rtts_ok extra key hops then 0 else 5), Some (key + 65536 * (proto + 4 * (if v6 then 1 else 0))))
-          else if existsb (fun h => match h with (_, ip, _, _, _) => match router_key ip with Some (k', _) => negb (k' =? key) | None => false end end) hops
+          else if existsb (fun h => match h with (_, ip, _, _, _) => match router_key ip with Some (k', _) => negb (k' =? skey) | None => false end end) hops
                then (1, Some key) else (4, Some key)
       end
   end.
@@ -114,13 +120,20 @@ Definition check_shared (prop : Z) (inp impl : sx) : sx :=
           (* filt_slow = filters on (1) + 2 * socket mode: 0 immediate, 1 every write returns 20 ms after the probe left,
              2 the socket takes the bytes 3 ms after WriteTo was entered - the probe is handed to the network when SendProbe
              is called, so in mode 2 every round trip is 3 ms longer *)
+          (* bits from 8 up: how far below the 16-bit wrap the process-wide identifier counters stood when the scenario began
+             (0: wherever earlier scenarios left them) - the expected results do not depend on it *)
           let filt := filt_slow mod 2 in
-          let extra := (if filt_slow / 2 =? 2 then 3000 else 0, if filt_slow / 2 =? 1 then 20000 else 0) in
+          let slow := (filt_slow / 2) mod 4 in
+          let extra := (if slow =? 2 then 3000 else 0, if slow =? 1 then 20000 else 0) in
           let srun_verdict := srun_verdict extra in
-          let cls := 1 + 2 * Z.min 7 (Z.of_nat (length rin)) + (if filt =? 0 then 0 else 16) + 32 * (filt_slow / 2) in
+          let cls := 1 + 2 * Z.min 7 (Z.of_nat (length rin)) + (if filt =? 0 then 0 else 16) + 32 * slow + (if filt_slow / 8 =? 0 then 0 else 128) in
           if negb (Nat.eqb (length rin) (length rout)) then badcase else
           let vs := map (fun io => srun_verdict (fst io) (snd io)) (combine rin rout) in
-          if existsb (fun v => fst v =? 1) vs then verdict V_SPECFAIL cls (if prop =? 11 then [11; 1] else [1; 2]) (L (map (fun v => A (fst v)) vs))
+          (* every run has its own socket pair: two runs whose hops come from probes that left through the SAME socket means
+             that one of them reports the replies to the other's probes *)
+          let socks := concat (map (fun o => match first_key (snd o) with Some sk => [sk] | None => [] end) rout) in
+          if negb (nodupz socks) then verdict V_SPECFAIL cls (if prop =? 11 then [11; 1] else [1; 2]) (L (map A socks))
+          else if existsb (fun v => fst v =? 1) vs then verdict V_SPECFAIL cls (if prop =? 11 then [11; 1] else [1; 2]) (L (map (fun v => A (fst v)) vs))
           else if (prop =? 11) && existsb (fun v => fst v =? 6) vs then verdict V_SPECFAIL cls [11; 6] (L (map (fun v => A (fst v)) vs))
           else if existsb (fun v => fst v =? 4) vs then verdict V_SPECFAIL cls (if prop =? 11 then [11; 4] else if prop =? 6 then [6; 6] else [2; 3]) (L (map (fun v => A (fst v)) vs))
           else if (prop =? 5) && existsb (fun v => fst v =? 5) vs then verdict V_SPECFAIL cls [5; 2] (L (map (fun v => A (fst v)) vs))
